@@ -107,7 +107,8 @@ struct C15 : Property {
     json pj;
     osc::to_json(pj, prm);
     p["ctx"] = pj;
-    p["first_seq"] = r.chance(0.5) ? r.below(10) : r.below(1ull << 38);
+    p["first_seq"] = r.chance(0.5) ? (r.chance(0.4) ? 0 : r.below(10)) : r.below(1ull << 38);
+    bool hostile_first = r.chance(0.25);     // the very first protected message the recipient context ever sees may be a forgery
     json ops = json::array();
     int n = (int)r.range(5, 40);
     int64_t t = 0;
@@ -116,7 +117,7 @@ struct C15 : Property {
       t += r.chance(0.6) ? r.range(1, 30) : r.range(30, 3000);
       double x = (r.next() >> 11) * (1.0 / 9007199254740992.0);
       json o = {{"t_ms", t}, {"con", r.chance(0.5)}};
-      if (x < 0.40 || i == 0) { o["kind"] = "fresh"; o["gap"] = gaps[r.below(18)]; }
+      if (x < 0.40 || (i == 0 && !hostile_first)) { o["kind"] = "fresh"; o["gap"] = gaps[r.below(18)]; }
       else if (x < 0.55) { o["kind"] = "older"; o["back"] = r.chance(0.7) ? r.range(1, 70) : r.range(1, 400); }
       else if (x < 0.78) { o["kind"] = "replay"; o["ref"] = r.below(1000); }
       else {
